@@ -52,7 +52,9 @@ where
     let visited: Vec<Mutex<HashSet<String>>> = (0..SHARDS).map(|_| Mutex::new(HashSet::new())).collect();
     visited[shard_of(&init_key)].lock().unwrap().insert(init_key);
     let mut parents: Vec<(u32, u16)> = vec![(u32::MAX, 0)];
-    let mut frontier: Vec<(u32, S)> = vec![(0, init)];
+    // Each state sits in a Mutex<Option<..>> so that the worker that expands
+    // it can also drop it (its memory then stays with the workers' arenas).
+    let mut frontier: Vec<Mutex<Option<(u32, S)>>> = vec![Mutex::new(Some((0, init)))];
     let mut stats = Stats { states: 1, transitions: 0, levels: vec![1], complete: false };
     let mut depth = 0usize;
     while !frontier.is_empty() {
@@ -67,7 +69,9 @@ where
             let visited_ref = &visited;
             let fresh_ref = &fresh;
             let step_ref = &step;
-            ctx.par_for_each(&frontier, |l, (id, st)| {
+            ctx.par_for_each(&frontier, |l, slot| {
+                let owned = slot.lock().unwrap().take().expect("state expanded twice");
+                let (id, st) = (&owned.0, &owned.1);
                 let mut mine: Vec<(u32, u16, S)> = Vec::new();
                 for op in 0..n_ops {
                     let hist = || {
@@ -93,7 +97,7 @@ where
         for (p, op, s) in fresh {
             let id = parents.len() as u32;
             parents.push((p, op));
-            frontier.push((id, s));
+            frontier.push(Mutex::new(Some((id, s))));
         }
         depth += 1;
         if !frontier.is_empty() {
